@@ -168,7 +168,12 @@ def program_strategy():
         nb = sum(1 for d in decls if d[0] == "b")
         ni = len(decls) - nb
         nc = draw(st.integers(1, 6))
-        cons = [draw(S["bool_recipe"](nb, ni)) for _ in range(nc)]
+        pool = [v for d in decls if d[0] == "i" for v in (d[1], d[2])]
+        lits = st.integers(-4, 6)
+        if pool and max(abs(v) for v in pool) > 8:
+            # literals near the (far from zero) domains so that comparisons are not all trivial
+            lits = st.one_of(lits, st.builds(lambda v, dv: v + dv, st.sampled_from(pool), st.integers(-1, 1)))
+        cons = [draw(S["bool_recipe"](nb, ni, 3, lits)) for _ in range(nc)]
         return dict(**{"class": "enum"}, decls=decls, constraints=cons)
 
     @st.composite
